@@ -25,9 +25,12 @@ TRUSTED = ["Lean 4.33 kernel", "axioms propext/Classical.choice/Quot.sound only"
            "CPython dict semantics (the oracle IS a Python dict)",
            "model Invoke/Model/Config.lean hand-written, tied by correspondence on every run"]
 ASSUMPTIONS = ["values are type-consistent (a key path is a section in every level and every write, or a leaf in all of them)",
-               "each operation goes through a proxy navigated from the root for that operation (or a proxy used for a burst "
-               "of consecutive operations); a proxy object kept across OTHER operations is a snapshot of the old cache and is "
-               "outside the model",
+               "each MODELLED operation goes through a proxy navigated from the root for that operation; proxy handles kept "
+               "across other operations are exercised oracle-only (bursts; handle histories): what a stale handle READS is not "
+               "demanded to be dict-like ONLY up to known finding C06-stale-held-handle: results and effects of operations through "
+               "a handle must equal those of a plain nested dict (the root's view at the handle's path); failures of handles "
+               "obtained before a re-merge of their object carry the stale tag and are matched by the known finding; every "
+               "edit through a handle whose section still exists must be effective at the root and in later clones (untagged)",
                "history_refines_dict_partial: dict-valued writes only at key paths that are sections in no lower level "
                "(known findings C06-section-write-merges / C06-section-rewrite-resurrects cover the rest)",
                "popitem / iteration order are unconstrained: the reference follows the key the implementation chose"]
@@ -122,7 +125,15 @@ def gen_history(rng, maxlen=40, risky=0.03, files=False, clone_p=0.03, into_p=0.
                     extra.append({"o": o, "op": "LOADU", "slot": kind,
                                   "data": tree(rng, dens=0.3 if kind == "overrides" else 0.55)})
                 t = rng.random()
-                if t < 0.4:
+                tmp = ref.clone()
+                for e in extra:
+                    tmp.apply(e)
+                both = [k for k, v in ref.tree.items() if not isinstance(v, dict) and k in tmp.tree
+                        and not isinstance(tmp.tree[k], dict)]
+                if t < 0.25 and both:
+                    # a deletion right after the unmerged load (of a key the old AND the new view have)
+                    extra.append({"o": o, "op": rng.choice(["DI", "DA"]), "path": [], "k": rng.choice(both)})
+                elif t < 0.4:
                     extra.append({"o": o, "op": "MERGE"})
                 elif t < 0.6:
                     extra.append({"o": o, "op": "LOAD", "slot": "collection", "data": tree(rng)})
@@ -132,6 +143,8 @@ def gen_history(rng, maxlen=40, risky=0.03, files=False, clone_p=0.03, into_p=0.
                     lk = rng.choice([k for k in KEYS if SHAPE.get((k,)) == "leaf"])
                     extra.append({"o": o, "op": "SI", "path": [], "k": lk, "v": leaf(rng, (lk,))})
                 op = extra.pop(0)
+            elif levels == "nofiles":
+                op.update(op="LOAD", slot="collection", data=tree(rng))
             elif w < 0.85:
                 op.update(op="RUNTIME", data=tree(rng, dens=0.4) if rng.random() < 0.8 else None)
             else:
@@ -238,6 +251,85 @@ def gen_history(rng, maxlen=40, risky=0.03, files=False, clone_p=0.03, into_p=0.
                     ops.append({"o": o, "op": "MERGE"})  # never leave an unmerged load dangling
                 break
     return ops
+
+
+def gen_sub(rng, path, ref):
+    """an operation to issue through a handle held on section `path`"""
+    cand = [k for k in KEYS if tuple(path) + (k,) in SHAPE and SHAPE[tuple(path) + (k,)] == "leaf"]
+    if not cand:
+        return None
+    cur = cfglib.get_path(ref.tree, list(path))
+    present = [k for k in (cur if isinstance(cur, dict) else {}) if k in cand]
+    k = rng.choice(present) if present and rng.random() < 0.65 else rng.choice(cand)
+    full = tuple(path) + (k,)
+    r = rng.random()
+    if r < 0.28:
+        return {"op": rng.choice(["SI", "SA"]), "k": k, "v": leaf(rng, full)}
+    if r < 0.48:
+        return {"op": rng.choice(["DI", "DA"]), "k": k}
+    if r < 0.58:
+        sub = {"op": "POP", "k": k}
+        if rng.random() < 0.5:
+            sub["d"] = 0
+        return sub
+    if r < 0.64:
+        return {"op": "PI"}
+    if r < 0.69:
+        return {"op": "CLR"}
+    if r < 0.79:
+        return {"op": "SD", "k": k, "d": leaf(rng, full)}
+    if r < 0.85:
+        return {"op": "UPD", "kw": {kk: leaf(rng, tuple(path) + (kk,)) for kk in rng.sample(cand, rng.randint(1, len(cand)))}}
+    sub = {"op": rng.choice(["GI", "HAS", "KEYS", "LEN"]), "k": k}
+    if sub["op"] in ("KEYS", "LEN"):
+        del sub["k"]
+    return sub
+
+
+def gen_handle_history(rng, maxlen=24, files=False, clone_p=0.1, levels="nofiles"):
+    """a random history (edits from the root, reloads - also unmerged ones -, clones) into which proxy HANDLES are
+    woven: obtained at some point (`HOLD`, depth 1-2), kept across the later operations, used for every kind of edit
+    and read (`HOP`) - also after the view has been re-merged, after reloads, on clones"""
+    base = gen_history(rng, maxlen=maxlen, risky=0.02, files=files, clone_p=clone_p, max_objs=3, reload_p=0.2, levels=levels,
+                       focus=0.6)
+    out, refs, handles = [], [], []
+
+    def weave():
+        if not refs or (out and out[-1]["op"] == "LOADU"):
+            return
+        r = rng.random()
+        if r < 0.3 or not handles:
+            o = rng.randrange(len(refs))
+            secs = [x for x in sections(refs[o].tree) if x]
+            if secs:
+                path = rng.choice(secs)
+                handles.append((len(handles), o, path))
+                out.append({"o": o, "op": "HOLD", "h": len(handles) - 1, "path": [[k, rng.random() < 0.4] for k in path]})
+        elif r < 0.75:
+            h, o, path = rng.choice(handles)
+            sub = gen_sub(rng, path, refs[o])
+            if sub:
+                out.append({"o": o, "op": "HOP", "h": h, "sub": sub})
+                try:
+                    refs[o].apply(dict(copy.deepcopy(sub), path=[[k, False] for k in path]))
+                except cfglib.RefSkip:
+                    pass
+
+    for op in base:
+        weave()
+        out.append(op)
+        try:
+            if op["op"] in ("NEW", "NEWF"):
+                refs.append(cfglib.new_ref(op))
+            elif op["op"] == "CLONE":
+                refs.append(refs[op.get("o", 0)].clone())
+            else:
+                refs[op.get("o", 0)].apply(op)
+        except cfglib.RefSkip:
+            pass
+    for _ in range(rng.randint(1, 4)):
+        weave()
+    return out
 
 
 # ------------------------------------------------------------------ exhaustive small scope
@@ -446,7 +538,16 @@ def signature(f):
 
 def match_known(entry, failure):
     case = failure["case"]
-    if case.get("kind") != "hist" or not entry.get("match"):
+    if not entry.get("match"):
+        return False
+    if entry["match"] == "C06-stale-held-handle":
+        # ONLY dict-likeness failures of a handle obtained before the last re-merge of its object (tag computed from
+        # the history); edits not effective at the root, clone mismatches and internal errors never carry the tag
+        if case.get("kind") != "handle":
+            return False
+        why = cfglib.judge_handles(copy.deepcopy(case["ops"]))
+        return bool(why) and why.endswith(cfglib.STALE_TAG)
+    if case.get("kind") != "hist":
         return False
     sig = classify(case["ops"])
     return sig is not None and all(x in KNOWN_SIGS for x in sig.split("+")) and entry["match"] in sig.split("+")
@@ -464,6 +565,9 @@ def check_hist(ops):
 def replay(case):
     if case.get("kind") == "held":
         why = run_held(case)
+        return why is None, why or "ok"
+    if case.get("kind") == "handle":
+        why = cfglib.judge_handles(copy.deepcopy(case["ops"]))
         return why is None, why or "ok"
     ops = copy.deepcopy(case["ops"])
     ops, _, f, _ = check_hist(ops)
@@ -494,7 +598,7 @@ def run(ctx):
         for ops in small_histories(3):
             hists.append(("small", ops))
     out.exhaustive = True
-    for _ in range(ctx.n(1500, 30000)):
+    for _ in range(ctx.n(1200, 30000)):
         hists.append(("random", gen_history(rng)))
     for _ in range(ctx.n(150, 3000)):
         hists.append(("risky", gen_history(rng, maxlen=12, risky=0.5)))
@@ -539,6 +643,21 @@ def run(ctx):
         out.hist["held_detached" if c["detach"] else "held"] += 1
         why = run_held(c)
         if why:
+            out.fail(c, why)
+    # handles kept across other operations: oracle only (edits through a live handle are effective at the root, clones agree)
+    for _ in range(ctx.n(300, 12000)):
+        ops = gen_handle_history(rng)
+        c = {"kind": "handle", "ops": ops}
+        out.case(c, any(o["op"] == "HOP" for o in ops))
+        out.hist["handle_histories"] += 1
+        out.hist["handle_ops"] += sum(1 for o in ops if o["op"] == "HOP")
+        why = cfglib.judge_handles(copy.deepcopy(ops))
+        if why and why.endswith(cfglib.STALE_TAG):
+            # known finding C06-stale-held-handle: sampled (run.py re-checks each one against known_findings.json)
+            out.hist["oracle_C06-stale-held-handle"] += 1
+            if out.hist["oracle_C06-stale-held-handle"] <= 12:
+                out.fail(c, why)
+        elif why:
             out.fail(c, why)
     out.extra["table_obligations"] = 0
     nh = max(1, sum(v for k, v in out.hist.items() if k.startswith("hist_") and k != "hist_with_reload_and_mutation"))
